@@ -127,6 +127,49 @@ def make_explicit(stms, pool):
     return body
 
 
+def make_after_failed_parse(stms, pool):
+    """CAIT's last parse failed (a text with a typo was searched); then the program is loaded and verified by the
+    Source tool and searched twice: what exists by construction is found both times."""
+    def body(ctx):
+        pi = ctx.choose(pool, 'program')
+        how = ('set_source', 'contextualize+verify', 'next section')[ctx.choose(3, 'how-loaded')]
+        P = stms[pi] + "\n"
+        ders = _derived(P, False, False)
+        di = ctx.choose(len(ders), 'derivation')
+        pat, what, exp = ders[di]
+        ctx.observe(repr((P, pat, how)))
+        ctx.set_sample({'program': P, 'pattern': pat, 'how': how})
+        cmds.clear_report()
+        if how == 'next section':
+            from pedal.source.sections import separate_into_sections, next_section
+            cmds.contextualize_report("oops = (\n##### Part 1\n" + P)
+            separate_into_sections(independent=True)
+            verify()
+            find_matches('___')
+            next_section()
+            verify()
+            P2 = "\n" + P
+        else:
+            cmds.contextualize_report("oops = (\n")
+            find_matches('___')
+            if how == 'set_source':
+                set_source(P)
+            else:
+                cmds.clear_report()
+                cmds.contextualize_report(P)
+                verify()
+            P2 = P
+        ctx.step(('loaded', how))
+        for again in (False, True):
+            n0 = len(ctx.fails)
+            judge(ctx, P2, pat, what, exp)
+            for sig, det in ctx.fails[n0:]:
+                sig['after'] = 'a failed parse, text verified by the Source tool' + (', second search' if again else '')
+            if ctx.fails:
+                break
+    return body
+
+
 WARM_OUTER = ["for _i_ in __e__:\n    ___", "_t_ = __e__", "print(__e__)", "if __e__:\n    ___", "while __e__:\n    ___",
               "_t_ = _f_(__e__, ___)", "___ = ___ + __e__"]
 WARM_INNER = ["range(___)", "___ + ___", "_v_", "___[___]", "___ < ___", "_t_ + ___", "_i_", "_t_"]
@@ -179,6 +222,17 @@ def make_after_submatch(stms, pool):
     return body
 
 
+def _setup2():
+    _setup()
+    from checks import c10
+    c10._setup()
+
+
+def _two_questions():
+    from checks import c10
+    return c10.body_two_questions
+
+
 def bounds(tier):
     return {'statements': len(cc.STM), 'max_statements': 2, 'second_statement_pool': 12 if tier == 'quick' else len(cc.STM),
             'derivations': 'whole, each statement, each expression -> ___/__e__, each identifier -> _v_, all identifiers '
@@ -201,6 +255,11 @@ def phases(tier):
                        '(function placeholders)'),
         Phase('explicit-code', make_explicit(cc.STM, 14), setup=_setup, chunk=300,
               describe='find_matches(pattern, code) while another submission is loaded'),
+        Phase('after-failed-parse', make_after_failed_parse(cc.STM, 14 if not th else len(cc.STM)), setup=_setup, chunk=300,
+              describe='CAIT failed to parse an earlier text; the program is then verified by the Source tool and searched twice'),
+        Phase('two-questions', _two_questions(), setup=_setup2, chunk=100,
+              describe='match + look inside the bound node, twice, with the placeholder names used differently: nothing '
+                       'that is found when asked alone is lost when asked second'),
         Phase('after-sub-match', make_after_submatch(cc.STM, 4 if not th else 12), setup=_setup, chunk=300,
               describe='every derived pattern again after a two-level search (pattern, then sub-pattern below __e__)'),
     ]
